@@ -347,6 +347,8 @@ type sut struct {
 	tip   int64
 	gen   int // generation counter for crash copies
 	root  string
+
+	everPooled map[atx]bool // transactions seen in the index at some point
 }
 
 var unitSize uint64 // storage size of a one-blob transaction (capacity unit)
@@ -362,7 +364,7 @@ func (s *sut) open() {
 func newSUT(root string, cfg *acfg, genesis *ablock, tip int64) *sut {
 	c := &chain{byID: map[int64]*hblock{}, byHash: map[common.Hash]*hblock{}}
 	c.head = c.add(0, genesis)
-	s := &sut{chain: c, cfg: cfg, tip: tip, root: root, dir: filepath.Join(root, "g0")}
+	s := &sut{chain: c, cfg: cfg, tip: tip, root: root, dir: filepath.Join(root, "g0"), everPooled: map[atx]bool{}}
 	s.open()
 	return s
 }
@@ -595,6 +597,31 @@ func (s *sut) project() tl.M {
 	if vs.Stored%unitSize != 0 {
 		tl.Fatal("stored %d is not a multiple of the unit", vs.Stored)
 	}
+	lastAligned, lastLimboExact = true, true
+	for n, txs := range lastPooled {
+		if len(txs) > 0 && txs[0].Nonce != s.chain.head.abs.Nonce[n] {
+			lastAligned = false
+		}
+		for _, t := range txs {
+			s.everPooled[t] = true
+		}
+	}
+	// every transaction that was pooled and sits in a canonical block above finality must be in the
+	// limbo under that block's number
+	inLimbo := map[atx]int64{}
+	for _, e := range limbo {
+		inLimbo[e.Tx] = e.Block
+	}
+	for b := s.chain.head; ; b = s.chain.byID[b.abs.Parent] {
+		for _, t := range b.abs.Txs {
+			if blk, ok := inLimbo[t]; s.everPooled[t] && b.abs.Num > s.chain.final && (!ok || blk != b.abs.Num) {
+				lastLimboExact = false
+			}
+		}
+		if b.abs.Parent == b.id {
+			break
+		}
+	}
 	return tl.M{
 		"idx": idx, "spent": spent, "stored": vs.Stored / unitSize, "lookup": lookup, "lblobs": vs.LookupBlobs,
 		"heap": heap, "hidx": hidxOK, "hbf": scaled(vs.HeapBasefee), "hbl": scaled(vs.HeapBlobfee), "tip": vs.GasTip.Int64(),
@@ -626,6 +653,9 @@ var (
 	seenStates = map[string]bool{}
 	traceNo    int
 	lastPooled = map[string][]atx{} // the index of the last projection (feedback for the generator)
+	// strict forms of the two properties with a known finding, evaluated on the last projection
+	lastAligned    = true // every pooled list starts at the account's state nonce
+	lastLimboExact = true // every limbo entry carries the number of the canonical block including it
 )
 
 // run executes one behaviour on a fresh pool in a fresh directory and writes its events; next
@@ -713,6 +743,25 @@ func abs64(x int64) int64 {
 	return x
 }
 
+// fixBehaviour re-derives the fee-jump attributes of a model behaviour from the implementation
+// (the model carries rounded samples).
+func fixBehaviour(b []step) {
+	for j := range b {
+		fix := func(t *atx) { *t = mkAbs(t.From, t.Nonce, t.Tip, t.Cap, t.Bcap) }
+		if b[j].Act.Tx != nil {
+			fix(b[j].Act.Tx)
+		}
+		for _, blk := range []*ablock{b[j].Act.Block, b[j].Act.Genesis} {
+			if blk != nil {
+				for k := range blk.Txs {
+					fix(&blk.Txs[k])
+				}
+				blk.Bfj, blk.Blj = headBfj[0], headBlj[0]
+			}
+		}
+	}
+}
+
 func runReplay(in, root, trace string, sum *tl.Summary) {
 	var behaviours [][]step
 	tl.ReadJSON(in, &behaviours)
@@ -720,21 +769,7 @@ func runReplay(in, root, trace string, sum *tl.Summary) {
 	defer tr.Close()
 	seen := map[string]bool{}
 	for i, b := range behaviours {
-		// the model's fee-jump attributes are samples: re-derive them from the implementation
-		for j := range b {
-			fix := func(t *atx) { *t = mkAbs(t.From, t.Nonce, t.Tip, t.Cap, t.Bcap) }
-			if b[j].Act.Tx != nil {
-				fix(b[j].Act.Tx)
-			}
-			for _, blk := range []*ablock{b[j].Act.Block, b[j].Act.Genesis} {
-				if blk != nil {
-					for k := range blk.Txs {
-						fix(&blk.Txs[k])
-					}
-					blk.Bfj, blk.Blj = headBfj[0], headBlj[0]
-				}
-			}
-		}
+		fixBehaviour(b)
 		b := b
 		n := run(tr, root, b[0].Act, func(i int) *act {
 			if 1+i >= len(b) {
@@ -754,6 +789,35 @@ func runReplay(in, root, trace string, sum *tl.Summary) {
 		}
 	}
 	sum.Rule = "every behaviour printed by TLC (simulation of MCBlobPool) is executed operation by operation on a fresh blobpool.BlobPool in a fresh directory; distinct = distinct behaviours"
+}
+
+// runWitness replays the model's witnesses of a known finding and reports on how many of them the
+// real pool ends in a state violating the strict property.
+func runWitness(in, kind, root, trace string, sum *tl.Summary) {
+	var behaviours [][]step
+	tl.ReadJSON(in, &behaviours)
+	tr := tl.NewTrace(trace)
+	defer tr.Close()
+	reproduced := 0
+	for _, b := range behaviours {
+		b := b
+		fixBehaviour(b)
+		n := run(tr, root, b[0].Act, func(i int) *act {
+			if 1+i >= len(b) {
+				return nil
+			}
+			return &b[1+i].Act
+		}, sum)
+		sum.Traces++
+		sum.Evaluations++
+		sum.Steps += n
+		if (kind == "gap" && !lastAligned) || (kind == "limbo" && !lastLimboExact) {
+			reproduced++
+		}
+	}
+	sum.Extra["witnesses"], sum.Extra["reproduced_on_real_pool"], sum.Extra["kind"] = len(behaviours), reproduced, kind
+	sum.Distinct = reproduced
+	sum.Rule = "model witnesses of a known finding replayed on the real pool; distinct = witnesses whose final real state violates the strict property"
 }
 
 func runRecord(root, trace string, seed int64, ntraces, nsteps int, sum *tl.Summary) {
@@ -917,7 +981,8 @@ func runRecord(root, trace string, seed int64, ntraces, nsteps int, sum *tl.Summ
 }
 
 func main() {
-	mode := flag.String("mode", "record", "replay|record")
+	mode := flag.String("mode", "record", "replay|witness|record")
+	kind := flag.String("kind", "gap", "known finding of the witnesses: gap|limbo (mode witness)")
 	in := flag.String("in", "", "behaviours json (mode replay)")
 	dir := flag.String("dir", "", "scratch directory for pool data")
 	trace := flag.String("trace", "trace.ndjson", "output trace")
@@ -937,6 +1002,8 @@ func main() {
 	switch *mode {
 	case "replay":
 		runReplay(*in, *dir, *trace, sum)
+	case "witness":
+		runWitness(*in, *kind, *dir, *trace, sum)
 	case "record":
 		runRecord(*dir, *trace, seed, *n, *steps, sum)
 	default:
